@@ -343,19 +343,32 @@ theorem rubik_coloursInRange_invariant (cfg : Cfg) :
 
 example : ColoursInRange (goal 3) ∧ Shaped 3 (goal 3) := ⟨by decide, shaped_goal 3⟩
 
+/-! NOTE on what the membership theorems of this section do and do not cover (audits r4 #6, r5 #6, r6 #8): the dtype tag of every leaf
+is written by `toNValue` (by construction) — a wrong dtype in the real code cannot falsify `….valid (toNValue …) = true`; dtypes and
+field order of the real observations are compared by the `rubiks_cube.spec` / `rubiks_cube.state` ops (`nvalue`: field order, shape, dtype, data) and
+`jax.eval_shape` in the sweeps.  Shapes are READ OFF the value by `toNValue` (widths off the first row): see `…_obs_valid_only`. -/
+
 /-! #### membership in the DECLARED specs (structure, shapes, dtypes and bounds; audit r3 entry 9) -/
 open Sp PzS
 
 /-- the model's `obsSpec` / `actionSpec` / reward and discount specs ARE the specs generated from the real spec objects
-(Gen/Specs.lean) for the catalogue configurations of RubiksCube -/
+(Gen/Specs.lean) for the catalogue configurations of RubiksCube
+SPEC-ONLY third configuration: cube size 4 (depth `4 / 2 = 2`, unlike sizes 2 and 3 where it is 1), time limit 11 -/
 theorem rubik_obsSpec_generated :
     prefixed "observation_spec." (obsSpec ⟨3, 12⟩) = declared "rubikscube-3" "observation_spec." ∧
     prefixed "observation_spec." (obsSpec ⟨2, 7⟩) = declared "rubikscube-2" "observation_spec." ∧
     [("action_spec", actionSpec ⟨3, 12⟩)] = declared "rubikscube-3" "action_spec" ∧
     [("action_spec", actionSpec ⟨2, 7⟩)] = declared "rubikscube-2" "action_spec" ∧
     [("reward_spec", rewardSpec)] = declared "rubikscube-3" "reward_spec" ∧
-    [("discount_spec", discountSpec)] = declared "rubikscube-3" "discount_spec" := by
-  refine ⟨by decide, by decide, by decide, by decide, by decide, by decide⟩
+    [("discount_spec", discountSpec)] = declared "rubikscube-3" "discount_spec" ∧
+    [("reward_spec", rewardSpec)] = declared "rubikscube-2" "reward_spec" ∧
+    [("discount_spec", discountSpec)] = declared "rubikscube-2" "discount_spec" ∧
+    prefixed "observation_spec." (obsSpec ⟨4, 11⟩) = declared "spec-only-rubikscube-4" "observation_spec." ∧
+    [("action_spec", actionSpec ⟨4, 11⟩)] = declared "spec-only-rubikscube-4" "action_spec" ∧
+    [("reward_spec", rewardSpec)] = declared "spec-only-rubikscube-4" "reward_spec" ∧
+    [("discount_spec", discountSpec)] = declared "spec-only-rubikscube-4" "discount_spec" := by
+  refine ⟨by decide +kernel, by decide +kernel, by decide +kernel, by decide +kernel, by decide +kernel, by decide +kernel,
+    by decide +kernel, by decide +kernel, by decide +kernel, by decide +kernel, by decide +kernel, by decide +kernel⟩
 
 /-- the `reset` observation (ALL sizes, any scramble of actions of the action space, time limit ≥ 0) is accepted by
 `observation_spec.validate`: fields `cube`, `step_count`; shapes `(6, n, n)`, `()`; dtypes int8, int32; bounds [0, 5], [0, T] -/
@@ -370,7 +383,10 @@ theorem rubik_step_obs_valid (cfg : Cfg) (s : State) (hc : Shaped cfg.n s.cube) 
     (obsSpec cfg).valid (toNValue (step cfg s m.act).2.obs) = true := step_obs_valid cfg s hc m hm h hs
 
 /-- what membership means (so the two theorems above are not hollow): `validate` accepts an observation ONLY IF its cube has
-shape `(6, n, n)`, all stickers are in [0, 5] and the step count is in [0, T] -/
+shape `(6, n, n)`, all stickers are in [0, 5] and the step count is in [0, T]  CAVEAT (audits r4 #7, r5 #5, r6 #5): for every field that is a nested list, `toNValue` reads the widths off the FIRST row of the
+nested list, so the shape conjuncts here mean "row count, length of the first row, total number of cells" — a ragged value with the right total can be a
+member, and nothing is concluded about the later rows.  Rectangularity is part of the invariant (`SpecInv` / `Shaped` / `Rect…`) under which the
+forward theorems (`…_reset_obs_valid`, `…_step_obs_valid`, `…_along`) are proved, i.e. it holds of every EMITTED observation. -/
 theorem rubik_obs_valid_only (cfg : Cfg) (o : Obs) (h : (obsSpec cfg).valid (toNValue o) = true) :
     cubeShape o.cube = [6, cfg.n, cfg.n] ∧ ColoursInRange o.cube ∧ 0 ≤ o.stepCount ∧ o.stepCount ≤ cfg.timeLimit :=
   obs_valid_only cfg o h
